@@ -34,23 +34,28 @@ var faults = []struct {
 	text    string
 	parse   bool
 	comment string
-	offset  int // line of the faulty construct relative to the first line of text
+	offset  int  // line of the faulty construct relative to the first line of text
+	atEOF   bool // the fault is the end of the source (nothing follows it)
 }{
-	{"throw new Exception(\"x\");", false, "uncaught throw", 0},
-	{"$u = 1 % 0;", false, "modulo by zero", 0},
-	{"$u = nofn(1);", false, "undefined function", 0},
-	{"$u = new NoClass();", false, "undefined class", 0},
-	{"$u = $q->m();", false, "method call on null", 0},
-	{"$s = \"l1\nl2\nl3 {$q->m()} x\";", false, "method call on null inside an interpolation on the third line of a string", 2},
-	{"$s = <<<EOT\nl1\nl2 {$q->m()} x\nEOT;", false, "method call on null inside an interpolation on the second body line of a heredoc", 2},
-	{"$s = \"l1\nl2 @{ nofn(1) } x\";", false, "undefined function inside @{ } on the second line of a string", 1},
-	{"$u = [1,\n  2,\n  nofn(3)];", false, "undefined function on the third line of a list literal", 2},
-	{"$u = );", true, "stray closing parenthesis", 0},
-	{"function f( { }", true, "parameter list", 0},
-	{"foreach ($k) { }", true, "foreach without as", 0},
-	{"else { $u = 1; }", true, "else without if", 0},
-	{"$u = (1 + ;", true, "unterminated parenthesis", 0},
-	{"if ($k { $u = 1; }", true, "unterminated condition", 0},
+	{"throw new Exception(\"x\");", false, "uncaught throw", 0, false},
+	{"$u = 1 % 0;", false, "modulo by zero", 0, false},
+	{"$u = nofn(1);", false, "undefined function", 0, false},
+	{"$u = new NoClass();", false, "undefined class", 0, false},
+	{"$u = $q->m();", false, "method call on null", 0, false},
+	{"$s = \"l1\nl2\nl3 {$q->m()} x\";", false, "method call on null inside an interpolation on the third line of a string", 2, false},
+	{"$s = <<<EOT\nl1\nl2 {$q->m()} x\nEOT;", false, "method call on null inside an interpolation on the second body line of a heredoc", 2, false},
+	{"$s = \"l1\nl2 @{ nofn(1) } x\";", false, "undefined function inside @{ } on the second line of a string", 1, false},
+	{"$u = [1,\n  2,\n  nofn(3)];", false, "undefined function on the third line of a list literal", 2, false},
+	{"$u = );", true, "stray closing parenthesis", 0, false},
+	{"function f( { }", true, "parameter list", 0, false},
+	{"foreach ($k) { }", true, "foreach without as", 0, false},
+	{"else { $u = 1; }", true, "else without if", 0, false},
+	{"$u = (1 + ;", true, "unterminated parenthesis", 0, false},
+	{"if ($k { $u = 1; }", true, "unterminated condition", 0, false},
+	{"if ($k", true, "input ends inside a condition", 0, true},
+	{"$u = nofn(1,", true, "input ends inside an argument list", 0, true},
+	{"$u = [1,\n  2,", true, "input ends inside a list literal on its second line", 1, true},
+	{"function f($p) {\n  $u = (1 +", true, "input ends inside an expression on the second line of a function", 1, true},
 }
 
 func lineOfControl(ctl data.Control) (int, bool) {
@@ -79,6 +84,9 @@ func H_error_line() {
 	}
 	head := "$k = 1;\n" + c.pre + w + c.post + "$m = 2;\n"
 	src := head + f.text + "\n$z = 3;\n"
+	if f.atEOF {
+		src = head + f.text
+	}
 	want := 0
 	for i := 0; i < len(head); i++ {
 		want += symx.Ite(head[i] == '\n', 1, 0)
